@@ -234,7 +234,7 @@ def plan(tier, seed):
     n = 120 if tier == 'quick' else 2000
     for i in range(n):
         cases.append({'what': 'success', 'seed': seed, 'idx': i, 'compress': bool(i & 1), 'ninc': i % 3, 'explicit_o': (i // 2) % 2 == 0, 'labels': (i // 3) % 2 == 0,
-                      'hex': hexes[i % len(hexes)], 'defs': i % 7 == 0, 'big': i % 5 == 0})
+                      'hex': hexes[i % len(hexes)], 'defs': i % 7 == 0, 'big': i % 4 == 1})
     reps = 1 if tier == 'quick' else 6
     for rep in range(reps):
         for fault in list(NATURAL) + ['bad_hex_offset', 'missing_input', 'bad_include_dir']:
